@@ -238,44 +238,73 @@ def mismatch (prefix_ : String) (q : RQuery) (what : String) (model : Json) (tag
 
 /-! ### the property predicates on one REAL list answer -/
 
-/-- C05 on a real accounts / transactions / volumes page. -/
-def pitPredicates (l : Ledger) (kind : String) (q : RQuery) (data : List Json) : Bool × String :=
-  match kind with
-  | "listAccounts" =>
+/-- The account's documented metadata at `pit` (C17): the fold of the writes dated ≤ pit when the
+    history feature is on, the current metadata otherwise. -/
+def docAccountMeta (feat : Features) (l : Ledger) (a : String) (pit : Option Int) : Metadata :=
+  match pit with
+  | some t => if feat.acctMetaHist then metaAt l (.account a) (some t) else metaAt l (.account a) none
+  | none => metaAt l (.account a) none
+
+/-- Accounts that exist at `pit` under C18's documented first usage. -/
+def docAccountsAt (l : Ledger) (pit : Option Int) : List String :=
+  l.accounts.filter fun a =>
+    match docFirstUsage l a, pit with
+    | some fu, some t => decide (fu ≤ t)
+    | some _, none => true
+    | none, _ => false
+
+/-- The predicates of property `pid` on a real accounts / transactions / volumes page
+    (`complete`: the page holds the whole, unfiltered listing). Returns (holds, stable reason). -/
+def listPredicates (pid : String) (feat : Features) (l : Ledger) (kind : String) (q : RQuery) (complete : Bool)
+    (data : List Json) : Bool × String :=
+  match kind, pid with
+  | "listAccounts", "C05" =>
     let fu := match q.pit with
       | some t => data.all fun a => (optInt a "firstUsage").getD 0 ≤ t
       | none => true
+    -- every account used (in effective time) at or before `pit` is listed
+    let all := !complete || (data.map (strOf · "address")) == docAccountsAt l q.pit
     -- conservation per asset of the expanded *effective* volumes of a complete, unfiltered listing
     -- (an account first used after `pit` in effective time may already hold inserted moves, so
     -- the insertion-date volumes of the listed accounts need not sum to zero)
-    let cons := q.filter.isSome || q.pageSize < data.length + 1 ||
-      conservedRows (data.flatMap (assetVolsOf · "effectiveVolumes"))
-    let c18 := data.all fun a => optInt a "firstUsage" == docFirstUsage l (strOf a "address")
-    (c18 && fu && cons, if !c18 then "C18:first-usage-not-earliest-effective-timestamp" else if !fu then "first-usage-after-pit"
-      else if !cons then "not-conserved" else "")
-  | "listTransactions" =>
+    let cons := !complete || conservedRows (data.flatMap (assetVolsOf · "effectiveVolumes"))
+    (fu && all && cons, if !fu then "C05:pit-accounts:first-usage-after-pit"
+      else if !all then "C05:pit-accounts-miss-revert-only-usage" else "C05:pit-accounts:effective-volumes-not-conserved")
+  | "listAccounts", "C18" =>
+    let ok := data.all fun a => optInt a "firstUsage" == docFirstUsage l (strOf a "address") &&
+      optInt a "insertionDate" == insertionDate l (strOf a "address")
+    (ok, "C18:first-usage-not-earliest-effective-timestamp")
+  | "listAccounts", "C17" =>
+    let ok := data.all fun a => (a.getObjVal? "metadata").toOption == some (encMeta (docAccountMeta feat l (strOf a "address") q.pit))
+    (ok, "C17:account-metadata-at-pit:not-the-fold-at-t")
+  | "listTransactions", "C17" =>
+    let ok := data.all fun x =>
+      let id := ((optInt x "id").getD 0).toNat
+      (x.getObjVal? "metadata").toOption == some (encMeta (txMetaDoc l id (if feat.txMetaHist then q.pit else none)))
+    (ok, "C17:transaction-metadata-at-pit:not-the-fold-at-t")
+  | "listTransactions", "C05" =>
     let ok := match q.pit with
       | some t => data.all fun x => (optInt x "timestamp").getD 0 ≤ t &&
           (match optInt x "revertedAt" with | some r => r ≤ t | none => true)
       | none => true
-    (ok, if ok then "" else "timestamp-or-reverted-after-pit")
-  | "volumes" =>
+    (ok, "C05:pit-transactions:timestamp-or-reverted-after-pit")
+  | "volumes", "C05" | "volumes", "C02" | "volumes", "C04" =>
     let cons := q.filter.isSome || conservedRows data
     let bal := data.all fun r => bigOf r "balance" == bigOf r "input" - bigOf r "output"
-    (cons && bal, if !cons then "not-conserved" else if !bal then "balance-not-input-minus-output" else "")
-  | _ => (true, "")
+    (cons && bal, if !cons then s!"{pid}:volumes-listing:not-conserved" else s!"{pid}:volumes-listing:balance-not-input-minus-output")
+  | _, _ => (true, "")
 
 /-! ### answering one query -/
 
-def checkList (pfx : String) (feat : Features) (s : RState) (kind : String) (q : RQuery) (ans : Json) : Check :=
+def checkList (pid : String) (feat : Features) (s : RState) (kind : String) (q : RQuery) (ans : Json) : Check :=
   let tags := ["q:" ++ kind] ++ (if boolOf ans "ties" then ["ties-flagged"] else [])
   match listingOf feat s kind q with
   | .error e =>
     if errOf ans == some e.toString then { agree := true, tags := tags ++ ["err:" ++ e.toString] }
-    else mismatch pfx q ("expected-error-" ++ e.toString) (encErrAns e) tags
+    else mismatch pid q ("expected-error-" ++ e.toString) (encErrAns e) tags
   | .ok ls =>
     match errOf ans with
-    | some e => mismatch pfx q ("unexpected-error-" ++ (e.takeWhile (· != ':')).toString) (Json.arr ls.rows.toArray) tags
+    | some e => mismatch pid q ("unexpected-error-" ++ (e.takeWhile (· != ':')).toString) (Json.arr ls.rows.toArray) tags
     | none =>
       let (fwd, _) := pagesOf ls q.pageSize
       let first := fwd.head?.getD { tags := [], hasMore := false, next := false, previous := false }
@@ -292,7 +321,9 @@ def checkList (pfx : String) (feat : Features) (s : RState) (kind : String) (q :
       let countProp := !q.count || first.hasMore || (match ans.getObjVal? "count" with
         | .ok c => c == ((data.length : Nat) : Json)
         | .error _ => false)
-      let (pp, why) := pitPredicates s.ledger kind q data
+      let complete := q.filter.isNone && !first.hasMore && ls.rows.length == data.length
+      let (pp, why) := listPredicates pid feat s.ledger kind q complete data
+      let countProp := countProp || pid != "C20"
       let prop := countProp && pp
       let tags := tags ++ (if !exact && same then ["ties-reordered"] else []) ++
         (if data.isEmpty then ["empty"] else []) ++
@@ -301,44 +332,44 @@ def checkList (pfx : String) (feat : Features) (s : RState) (kind : String) (q :
         (if anyNullSensitive feat s kind q then ["null-under-not"] else [])
       if same && more && countOk then
         { agree := true, prop, tags,
-          sig := if prop then "" else if why.startsWith "C18:" then why
-                 else s!"{pfx}:{shapeOf q}:prop:{if !countProp then "count-ne-listed" else why}",
-          note := if prop then "" else s!"predicate failed on the real answer: {if !countProp then "count-ne-listed" else why}" }
+          sig := if prop then "" else if !countProp then s!"C20:{kind}:count-ne-listed" else why,
+          note := if prop then "" else s!"predicate failed on the real answer ({shapeOf q}): {if !countProp then "count-ne-listed" else why}" }
       else
-        { mismatch pfx q (if !same then "rows" else if !more then "hasMore" else "count")
+        { mismatch pid q (if !same then "rows" else if !more then "hasMore" else "count")
             (Json.mkObj [("data", Json.arr expRows.toArray), ("hasMore", first.hasMore), ("count", (ls.rows.length : Nat))]) tags
           with prop }
 
-def checkGetAccount (feat : Features) (s : RState) (q : RQuery) (ans : Json) : Check :=
+def checkGetAccount (pid : String) (feat : Features) (s : RState) (q : RQuery) (ans : Json) : Check :=
   let l := s.ledger
-  let tags := ["q:getAccount"]
+  let tags := ["q:getAccount"] ++ (if q.pit.isSome && feat.acctMetaHist then ["meta-history"] else [])
   let expected : Except Reads.RErr AccountView := do
     let sel ← accountsSelected feat l q.pit (some (.leaf .match_ "address" (.sc (.str q.address))))
     accountExpandCheck feat q.pit.isSome (sortStrings q.expand)
     match sel.head? with
     | some v => pure (expandAccount l q.pit q.expand v)
     | none => throw .notFound
+  -- C05 on the real answer: the account is found iff its documented first usage is ≤ pit
+  let docExists := (docAccountsAt l q.pit).contains q.address
   match expected with
   | .error e =>
-    if errOf ans == some e.toString then { agree := true, tags := tags ++ ["err:" ++ e.toString] }
-    else mismatch "C05" q ("expected-error-" ++ e.toString) (encErrAns e) tags
+    if errOf ans == some e.toString then
+      let c05 := pid != "C05" || e != .notFound || !docExists
+      { agree := true, prop := c05, tags := tags ++ ["err:" ++ e.toString],
+        sig := if c05 then "" else "C05:pit-accounts-miss-revert-only-usage",
+        note := if c05 then "" else s!"account {q.address} not found at pit although a committed (revert) transaction uses it at or before pit" }
+    else mismatch pid q ("expected-error-" ++ e.toString) (encErrAns e) tags
   | .ok v =>
     let real := (ans.getObjVal? "account").toOption.getD Json.null
-    -- C17 on the real answer: the metadata is the one the Spec's fold gives at `pit`
-    -- (history on), resp. the current one (history off)
-    let docMeta := match q.pit with
-      | some t => if feat.acctMetaHist then metaAt l (.account q.address) (some t) else metaAt l (.account q.address) none
-      | none => metaAt l (.account q.address) none
-    let c17 := (real.getObjVal? "metadata").toOption == some (encMeta docMeta)
-    let c18 := optInt real "firstUsage" == docFirstUsage l q.address && optInt real "insertionDate" == insertionDate l q.address
-    let tags := tags ++ (if q.pit.isSome && feat.acctMetaHist then ["meta-history"] else [])
+    let c17 := pid != "C17" || (real.getObjVal? "metadata").toOption == some (encMeta (docAccountMeta feat l q.address q.pit))
+    let c18 := pid != "C18" || (optInt real "firstUsage" == docFirstUsage l q.address && optInt real "insertionDate" == insertionDate l q.address)
     if real == encAccount v then
       { agree := true, prop := c17 && c18, tags,
         sig := if !c17 then "C17:account-metadata-at-pit:not-the-fold-at-t" else if !c18 then "C18:first-usage-not-earliest-effective-timestamp" else "",
-        note := if !c17 then s!"account {q.address}: metadata read at pit is not metaAt (fold of the writes dated ≤ pit)" else "" }
-    else mismatch "C05" q "account" (encAccount v) tags
+        note := if !c17 then s!"account {q.address}: metadata read at pit is not metaAt (fold of the writes dated ≤ pit)"
+                else if !c18 then s!"account {q.address}: first usage is not the earliest effective timestamp of the committed transactions involving it" else "" }
+    else mismatch pid q "account" (encAccount v) tags
 
-def checkGetTransaction (feat : Features) (s : RState) (q : RQuery) (ans : Json) : Check :=
+def checkGetTransaction (pid : String) (feat : Features) (s : RState) (q : RQuery) (ans : Json) : Check :=
   let l := s.ledger
   let tags := ["q:getTransaction"]
   let expected : Except Reads.RErr TxView := do
@@ -350,17 +381,21 @@ def checkGetTransaction (feat : Features) (s : RState) (q : RQuery) (ans : Json)
   match expected with
   | .error e =>
     if errOf ans == some e.toString then { agree := true, tags := tags ++ ["err:" ++ e.toString] }
-    else mismatch "C05" q ("expected-error-" ++ e.toString) (encErrAns e) tags
+    else mismatch pid q ("expected-error-" ++ e.toString) (encErrAns e) tags
   | .ok v =>
     let real := (ans.getObjVal? "transaction").toOption.getD Json.null
-    if real == encTx v then { agree := true, tags } else mismatch "C05" q "transaction" (encTx v) tags
+    let c17 := pid != "C17" ||
+      (real.getObjVal? "metadata").toOption == some (encMeta (txMetaDoc l q.id (if feat.txMetaHist then q.pit else none)))
+    if real == encTx v then
+      { agree := true, prop := c17, tags, sig := if c17 then "" else "C17:transaction-metadata-at-pit:not-the-fold-at-t" }
+    else mismatch pid q "transaction" (encTx v) tags
 
-def checkAggregated (feat : Features) (s : RState) (q : RQuery) (ans : Json) : Check :=
+def checkAggregated (pid : String) (feat : Features) (s : RState) (q : RQuery) (ans : Json) : Check :=
   let tags := ["q:aggregated"]
   match (if q.filterErr then .error .invalidQuery else aggregatedSelected feat s.ledger q.pit q.insertionDate q.filter) with
   | .error e =>
     if errOf ans == some e.toString then { agree := true, tags := tags ++ ["err:" ++ e.toString] }
-    else mismatch "C05" q ("expected-error-" ++ e.toString) (encErrAns e) tags
+    else mismatch pid q ("expected-error-" ++ e.toString) (encErrAns e) tags
   | .ok rows =>
     let exp := Json.mkObj ((aggregate rows).map fun (a, v) => (a, Json.str (toString v.balance)))
     let real := (ans.getObjVal? "balances").toOption.getD Json.null
@@ -369,8 +404,8 @@ def checkAggregated (feat : Features) (s : RState) (q : RQuery) (ans : Json) : C
       | .obj kvs => kvs.toList.all fun (_, v) => v == Json.str "0"
       | _ => false)
     if real == exp then
-      { agree := true, prop, tags, sig := if prop then "" else s!"C05:{shapeOf q}:prop:not-conserved" }
-    else mismatch "C05" q "balances" exp tags
+      { agree := true, prop, tags, sig := if prop then "" else s!"{pid}:aggregated:not-conserved" }
+    else mismatch pid q "balances" exp tags
 
 def encPageOut (ls : Listing) (p : PageOut) : Json :=
   Json.mkObj [("keys", Json.arr (p.tags.map (nth ls.ids)).toArray), ("hasMore", p.hasMore),
@@ -460,17 +495,16 @@ def checkRunQuery (feat : Features) (s : RState) (q : RQuery) (direct : Option R
           note := if prop then "" else "RunQuery and the direct list call differ" }
       else { mismatch "C37" d "run-pages" (Json.arr (expPages.map fun p => Json.arr p.toArray).toArray) tags with prop }
 
-def checkQuery (workload : String) (feat : Features) (s : RState) (qj : Json) (ans : Json) : Except String Check := do
+def checkQuery (pid : String) (feat : Features) (s : RState) (qj : Json) (ans : Json) : Except String Check := do
   let q ← decQuery qj
-  let pfx := match workload with | "filter" => "C20" | "page" => "C21" | "runquery" => "C37" | _ => "C05"
   if hasKey ans "panic" then
-    return { agree := false, prop := false, sig := s!"{pfx}:{q.k}{if q.res != "" then ":" ++ q.res else ""}:panic", tags := ["panic"],
+    return { agree := false, prop := false, sig := s!"{pid}:{q.k}{if q.res != "" then ":" ++ q.res else ""}:panic", tags := ["panic"],
              note := "the real code panicked: " ++ strOf ans "panic" }
   match q.k with
-  | "getAccount" => pure (checkGetAccount feat s q ans)
-  | "getTransaction" => pure (checkGetTransaction feat s q ans)
-  | "aggregated" => pure (checkAggregated feat s q ans)
-  | "listAccounts" | "listTransactions" | "listLogs" | "volumes" => pure (checkList pfx feat s q.k q ans)
+  | "getAccount" => pure (checkGetAccount pid feat s q ans)
+  | "getTransaction" => pure (checkGetTransaction pid feat s q ans)
+  | "aggregated" => pure (checkAggregated pid feat s q ans)
+  | "listAccounts" | "listTransactions" | "listLogs" | "volumes" => pure (checkList pid feat s q.k q ans)
   | "walk" => pure (checkWalk feat s q ans)
   | "runquery" =>
     let direct ← match qj.getObjVal? "direct" with
@@ -501,13 +535,13 @@ structure Acc where
   tags : List String := []
   nq : Nat := 0
 
-def stepAcc (workload : String) (feat : Features) (a : Acc) (j : Json) : Except String Acc := do
+def stepAcc (pid : String) (feat : Features) (a : Acc) (j : Json) : Except String Acc := do
   match j.getObjVal? "q" with
   | .ok qj =>
     match a.answers with
     | [] => throw "fewer answers than queries"
     | ans :: rest =>
-      let c ← checkQuery workload feat a.s qj ans
+      let c ← checkQuery pid feat a.s qj ans
       let first := a.agree && a.prop
       let bad := !(c.agree && c.prop)
       pure { a with answers := rest, agree := a.agree && c.agree, prop := a.prop && c.prop, nq := a.nq + 1,
@@ -536,13 +570,16 @@ def handleReads : Handler := fun inp out => do
   let results ← strArrField out "results"
   let answers ← arrField out "answers"
   if optStrField out "err" != "" then throw ("harness error: " ++ optStrField out "err")
-  let a ← steps.foldlM (stepAcc workload feat) { results, answers }
+  let pid := match optStrField inp "prop", workload with
+    | "", "filter" => "C20" | "", "page" => "C21" | "", "runquery" => "C37" | "", "meta" => "C17" | "", _ => "C05"
+    | p, _ => p
+  let a ← steps.foldlM (stepAcc pid feat) { results, answers }
   let txs := a.s.txs
   let nonWorld := (involvedOf (allPostings txs)).filter (· != "world")
   let backdated := (txs.zip (txs.drop 1)).any fun (x, y) => y.timestamp < x.timestamp
   pure { model := a.model, agree := a.agree, prop := a.prop,
          nontrivial := txs.length ≥ 1 && nonWorld.length ≥ 2 && a.nq ≥ 1,
-         tags := [featTag feat, "wl:" ++ workload] ++ a.tags ++ (if backdated then ["back-dated"] else []),
+         tags := [featTag feat, "wl:" ++ workload, "prop:" ++ pid] ++ a.tags ++ (if backdated then ["back-dated"] else []),
          sig := a.sig, note := a.note }
 
 def readsHandlers : List (String × Handler) := [("reads", handleReads)]
